@@ -571,6 +571,44 @@ func Run(r *fw.Run) {
 		}
 		r.Merge(l)
 	}
+	// histories of two comparisons: every pair of arguments followed by every pair of arguments, over versions
+	// and strings made of two versions joined by a character that a cache key or a packed representation might
+	// use as separator (space, NUL, |, comma, newline)
+	{
+		var mu sync.Mutex
+		base := []string{"v1", "v2", "v3"}
+		set := append([]string{}, base...)
+		for _, sep := range []string{" ", "\x00", "|", ",", "\n"} {
+			for _, x := range base {
+				for _, y := range base {
+					if x != y {
+						set = append(set, x+sep+y)
+					}
+				}
+			}
+		}
+		r.Bounds["comparison_histories"] = fmt.Sprintf("all ordered pairs of comparisons over %d strings (%d histories)", len(set), len(set)*len(set)*len(set)*len(set))
+		fw.Parallel(len(set), func(i int) {
+			l := fw.NewLocal()
+			defer r.Merge(l)
+			a := set[i]
+			for _, b := range set {
+				for _, c := range set {
+					for _, d := range set {
+						l.States++
+						l.Execs += 2
+						l.Transitions++
+						semver.Compare(a, b)
+						if msg := pair(c, d); msg != "" {
+							mu.Lock()
+							r.Violation("history2:"+strconv.QuoteToASCII(a+"|"+b+"|"+c+"|"+d), fmt.Sprintf("right after Compare(%q, %q): %s", a, b, msg), caseT{"pair", q(c, d)})
+							mu.Unlock()
+						}
+					}
+				}
+			}
+		})
+	}
 	// long lists: lengths around the thresholds at which sorting code changes strategy (insertion sort up
 	// to 12, pre-parsing above some size, ...), built from a pool with invalid strings that fail at different
 	// points of the grammar, in several arrangements
